@@ -64,6 +64,18 @@ def main():
         det = ('yes' + (' (no-failing-input-found)' if r.get('no_failing_input') else '')) if r.get('detected') else ('NO' if r else 'not run yet')
         cut = lambda s: re.sub(r'\s+', ' ', str(s)).replace('|', '/')[:160]
         out.append('| %s | %s | %s | %s | %s | %s |' % (sid, meta.get('breaks') or meta.get('property'), cut(meta.get('summary', '')), cut(meta.get('needs', '')), det, ', '.join(r.get('layers', []))))
+    out.append('')
+    out.append('### 11.4 Per-property as-built paragraphs\n')
+    out.append(open(os.path.join(V, 'tools', 'design_own.md')).read())
+    for p_ in props:
+        pid = p_['id']
+        npth = os.path.join(V, 'notes', pid + '.md')
+        if not os.path.exists(npth): continue
+        txt = open(npth).read()
+        mm = re.search(r'^## \(b\)[^\n]*\n(.*?)(?=^## \()', txt, flags=re.S | re.M)
+        if mm:
+            out.append('#### %s (built by a sub-task; from notes/%s.md)' % (pid, pid))
+            out.append(mm.group(1).strip() + '\n')
     block = '\n'.join(out)
     dp = os.path.join(V, 'DESIGN.md')
     s = open(dp).read()
